@@ -98,8 +98,11 @@ func TestVerif_C17_Pure(t *testing.T) {
 			fail("negative-interval", "negative interval gives another period start")
 		}
 		// digests
-		topic := rapid.SliceOfN(rapid.Byte(), 0, 40).Draw(rt, "topic")
-		seed := rapid.SliceOfN(rapid.Byte(), 0, 40).Draw(rt, "seed")
+		// lengths around the digest's block size matter (real topics are log addresses of 60-100 bytes, seeds 32 bytes)
+		lenGen := rapid.OneOf(rapid.IntRange(0, 40), rapid.SampledFrom([]int{31, 32, 33, 63, 64, 65, 96, 128, 200}))
+		tl, sl := lenGen.Draw(rt, "topicLen"), lenGen.Draw(rt, "seedLen")
+		topic := rapid.SliceOfN(rapid.Byte(), tl, tl).Draw(rt, "topic")
+		seed := rapid.SliceOfN(rapid.Byte(), sl, sl).Draw(rt, "seed")
 		topicCopy, seedCopy := append([]byte(nil), topic...), append([]byte(nil), seed...)
 		p1 := GenerateRendezvousPointForPeriod(topic, seed, start)
 		p2 := GenerateRendezvousPointForPeriod(topic, seed, start)
@@ -150,7 +153,7 @@ func TestVerif_C17_Pure(t *testing.T) {
 		boundary := at.Equal(start) || at.Equal(next.Add(-time.Nanosecond)) || at.Add(time.Nanosecond).Equal(start)
 		acct.Case(boundary, fmt.Sprintf("%v|%d|%d", interval, at.UnixNano(), len(topic)), func() any {
 			return map[string]any{"kind": "pure", "interval": interval.String(), "at": at.Format(time.RFC3339Nano), "topic_len": len(topic), "seed_len": len(seed)}
-		}, "pure", lbl(boundary, "pure/period-boundary"))
+		}, "pure", lbl(boundary, "pure/period-boundary"), lbl(len(topic)+len(seed) > 64, "pure/key-longer-than-block"))
 	})
 }
 
